@@ -456,7 +456,7 @@ func c10caller(c *Ctx) {
 	}
 	ps := c.paths(rule, f, px.Config{})
 	seen := map[string]int{}
-	held := c.forall(rule, mrPkg+".mapReduceWithPanicChan#select", "context expiry ⇒ cancel(DeadlineExceeded) and that error; user panic ⇒ the output is drained and the received panic value is re-raised; completion ⇒ a recorded cancel error wins over any value, else the value, else ErrReduceNoOutput", f, ps, func(p *px.Path) (bool, string) {
+	held := c.forall(rule, mrPkg+".mapReduceWithPanicChan#select", "context expiry ⇒ the pipeline is cancelled with, and the call returns, a context error; user panic ⇒ the output is drained and the received panic value is re-raised; completion ⇒ a recorded cancel error wins over any value, else the value, else ErrReduceNoOutput", f, ps, func(p *px.Path) (bool, string) {
 		sel := p.First(px.KindIs(px.EvSelect))
 		if sel == nil {
 			return true, ""
@@ -483,12 +483,20 @@ func c10caller(c *Ctx) {
 		switch {
 		case ch.Kind == px.KCall && ch.Call.Method != nil && ch.Call.Method.Name() == "Done":
 			seen["ctx"]++
-			cs := after(func(e *px.Event) bool { return e.Kind == px.EvCall && e.Call.IsDyn() })
-			if len(cs) != 1 || !px.IsGlobalLoad(cs[0].Call.Args[0], "context", "DeadlineExceeded") {
-				return false, "context expiry does not cancel the pipeline with context.DeadlineExceeded"
+			// a context error: context.DeadlineExceeded / context.Canceled or the context's own Err()
+			isCtxErr := func(s *px.Sym) bool {
+				if px.IsGlobalLoad(s, "context", "DeadlineExceeded") || px.IsGlobalLoad(s, "context", "Canceled") {
+					return true
+				}
+				x := s.Strip(false)
+				return x.Kind == px.KCall && x.Call.Method != nil && x.Call.Method.Name() == "Err"
 			}
-			if p.Exit == px.ExitReturn && !px.IsGlobalLoad(p.Results[1], "context", "DeadlineExceeded") {
-				return false, "context expiry does not return context.DeadlineExceeded"
+			cs := after(func(e *px.Event) bool { return e.Kind == px.EvCall && e.Call.IsDyn() })
+			if len(cs) != 1 || !isCtxErr(cs[0].Call.Args[0]) {
+				return false, "context expiry does not cancel the pipeline with a context error"
+			}
+			if p.Exit == px.ExitReturn && !isCtxErr(p.Results[1]) {
+				return false, "context expiry does not return a context error"
 			}
 		case fieldLoadDeep(ch, "channel", nil):
 			seen["panic"]++
